@@ -932,6 +932,13 @@ class CatStr(object):
     def __hash__(self):
         return id(self)
 
+    def sym_len(self):
+        """len(): code points of the concrete pieces plus charlen of the atoms"""
+        total = 0
+        for p in self.pieces:
+            total = total + (len(p) if isinstance(p, str) else p.sym_len())
+        return total
+
     def shape(self):
         return tuple(p if isinstance(p, str) else None for p in self.pieces)
 
